@@ -23,7 +23,7 @@ RULE = (
 ASSUMPTIONS = ["output directories exist", "clean backend (no tracked jobs), sources dated in the past"]
 
 
-QUICK_BUDGET = {"cases": 1440, "deadline_s": 170, "case_timeout_s": 60, "floors": {"touch_runs": 504, "edges_ordered": 1554, "status_rows": 1749, "contents_compared": 6000}}
+QUICK_BUDGET = {"cases": 1440, "deadline_s": 170, "case_timeout_s": 60, "floors": {"touch_runs": 504, "edges_ordered": 1554, "status_rows": 1749, "contents_compared": 6000, "fresh_sources": 170}}
 THOROUGH_FACTOR = 17  # thorough = the same workload with 17x the cases (floors scale along)
 
 
@@ -55,6 +55,8 @@ def gen_case(rng, idx, tier):
         "patterns": scenario.gen_selection(rng, names) if rng.random() < 0.6 else [],
         "hashing": rng.random() < 0.5,
         "records": {n: rng.choice(["same", "diff", "never"]) for n in names},
+        # a source file written just before the touch (same wall-clock second): not "in the future"
+        "fresh_source": rng.randrange(1 << 30) if rng.random() < 0.35 else None,
     }
 
 
@@ -108,6 +110,11 @@ def run_case(case):
         want_paths = set()
         for n in c:
             want_paths.update(model.res_outs(by[n]))
+        if case.get("fresh_source") is not None:
+            srcs = sorted(s_ for s_ in case["dag"]["sources"] if os.path.isfile(proj.path(s_)) and not os.path.islink(proj.path(s_)))
+            if srcs:
+                os.utime(proj.path(srcs[case["fresh_source"] % len(srcs)]), None)  # modified right now
+                res.mon("fresh_sources")
         before = gen.snapshot(root)
         SimCluster(proj.simdir, "slurm")
         env = cli.env_for(proj.simdir, ("slurm",))
